@@ -42,6 +42,7 @@ type contFam struct {
 	ids    []string
 	seqV   []Violation
 	emCall []emCall
+	emL    map[int]types.Listener
 	done   int
 	ntask  int
 }
@@ -89,6 +90,7 @@ func (f *contFam) setup(w *World) {
 	f.set = types.NewSet[int]()
 	f.em = types.NewEventEmitter()
 	f.y = utils.NewYeast()
+	f.emL = map[int]types.Listener{}
 	by := map[string][]ContOp{}
 	for _, o := range cs.Ops {
 		by[o.Task] = append(by[o.Task], o)
@@ -447,16 +449,14 @@ func (f *contFam) listener(w *World, i int) types.Listener {
 	return func(a ...any) { rec(a...); _ = 6 }
 }
 
-var emListeners map[int]types.Listener
-
 func (f *contFam) emOp(w *World, client int, o ContOp) {
-	if emListeners == nil || o.Op == "init" {
-		emListeners = map[int]types.Listener{}
+	if o.Op == "init" {
+		return
 	}
-	l := emListeners[o.A]
+	l := f.emL[o.A]
 	if l == nil {
 		l = f.listener(w, o.A)
-		emListeners[o.A] = l
+		f.emL[o.A] = l
 	}
 	call := w.recx(Ev{Kind: "em-invoke", S: o.Op, N: int64(o.A), P: []string{strconv.Itoa(client), strconv.Itoa(o.B)}})
 	res := ""
